@@ -1702,5 +1702,89 @@ seed("c18-newclientlmtp-forgets-flag", "C18", "R-lmtp-flag", "client.go",
 	return c""", """	c := NewClient(conn)
 	return c""", "an LMTP exchange is read as SMTP: one reply per message")
 
+# ---- batches 38/39 (2026-09-28) ----
+seed("c03-data-reset-deferred-before-refusals", "C03", "R-refusal-no-reset", "conn.go",
+"""	if !c.fromReceived || len(c.recipients) == 0 {
+		c.writeResponse(502, EnhancedCode{5, 5, 1}, "Missing RCPT TO command.")
+		return
+	}
+
+	// We have recipients, go to accept data
+	c.writeResponse(354, NoEnhancedCode, "Go ahead. End your data with <CR><LF>.<CR><LF>")
+
+	defer c.reset()
+""", """	defer c.reset()
+
+	if !c.fromReceived || len(c.recipients) == 0 {
+		c.writeResponse(502, EnhancedCode{5, 5, 1}, "Missing RCPT TO command.")
+		return
+	}
+
+	// We have recipients, go to accept data
+	c.writeResponse(354, NoEnhancedCode, "Go ahead. End your data with <CR><LF>.<CR><LF>")
+""", "a refused DATA resets the transaction the client is still building")
+for pid in ("C17", "C10"):
+    seed(pid.lower()+"-sendmail-auth-query-before-hello", pid, "R-hello-error-not-masked", "client.go",
+"""		if err = c.hello(); err != nil {
+			return err
+		}
+		if ok, _ := c.Extension("AUTH"); !ok {""", """		if ok, _ := c.Extension("AUTH"); !ok {""", "a refused EHLO inside TLS is reported as 'server doesn't support AUTH'")
+seed("c11-auth-identity-parsed-as-path", "C11", "R-param-errors-checked", "conn.go",
+"""				value, err = p.parseMailbox()
+				if err != nil || p.s != "" {""", """				value, err = p.parsePath()
+				if err != nil || p.s != "" {""", "AUTH=<bob@example.net> is accepted and handed on without the brackets")
+seed("c09-client-auth-buffer-reused", "C09", "R-cauth-flow", "client.go",
+"""		resp64 = make([]byte, encoding.EncodedLen(len(resp)))
+		encoding.Encode(resp64, resp)
+		code, msg64, err = c.cmd(0, string(resp64))""", """		if n := encoding.EncodedLen(len(resp)); n > len(resp64) {
+			resp64 = make([]byte, n)
+		}
+		encoding.Encode(resp64, resp)
+		code, msg64, err = c.cmd(0, string(resp64))""", "a shorter response drags the tail of the previous one along")
+for pid in ("C16", "C18"):
+    seed(pid.lower()+"-close-waits-command-timeout", pid, "R-cdeadline-paired", "client.go",
+"""	d.c.conn.SetDeadline(time.Now().Add(d.c.SubmissionTimeout))""", """	d.c.conn.SetDeadline(time.Now().Add(d.c.CommandTimeout))""", "a slow delivery makes Close return a local timeout instead of the verdict")
+seed("c20-logout-before-pipe-abort", "C20", "R-close-releases", "conn.go",
+"""	if c.bdatPipe != nil {
+		c.bdatPipe.CloseWithError(ErrDataReset)
+		c.bdatPipe = nil
+	}
+
+	if c.session != nil {
+		c.session.Logout()
+		c.session = nil
+	}
+
+	c.closed = true""", """	if c.session != nil {
+		c.session.Logout()
+		c.session = nil
+	}
+
+	if c.bdatPipe != nil {
+		c.bdatPipe.CloseWithError(ErrDataReset)
+		c.bdatPipe = nil
+	}
+
+	c.closed = true""", "a Logout that waits for the session's Data call deadlocks under both locks")
+seed("c12-starttls-verb-case-sensitive", "C12", "R-verb-case-insensitive", "parse.go",
+"""	case strings.HasPrefix(strings.ToUpper(line), "STARTTLS"):""", """	case strings.HasPrefix(line, "STARTTLS"):""", "'starttls' is answered 501 although STARTTLS is advertised")
+seed("c13-reply-text-as-format", "C13", "R-reply-format", "conn.go",
+"""		c.text.PrintfLine("%d %v.%v.%v %v", code, enhCode[0], enhCode[1], enhCode[2], text[lastLineIndex])""",
+"""		c.text.PrintfLine(fmt.Sprintf("%d %v.%v.%v ", code, enhCode[0], enhCode[1], enhCode[2]) + text[lastLineIndex])""", "a '%' in a recipient address garbles the reply that names it")
+seed("c01-lmtp-drain-beside-backend", "C01", "R-drain-after-data", "conn.go",
+"""			status.fillRemaining(lmtpSession.LMTPData(r, status))
+			r.limited = false
+			_, drainErr := io.Copy(ioutil.Discard, r) // Make sure all the data has been consumed
+			done <- drainErr == nil""", """			status.fillRemaining(lmtpSession.LMTPData(r, status))
+			done <- true""", "the message is no longer drained after the backend returned")
+seed("c06-bdat-result-through-conn-field", "C06", "R-go-capture", "conn.go",
+"""			dataResult <- err
+			r.CloseWithError(err)
+		}()""", """			c.dataResult <- err
+			r.CloseWithError(err)
+		}()""", "the delivery of a message refused with 552 reports into the next message's channel")
+seed("c08-fill-one-status-per-channel", "C08", "R-status-fill-shape", "conn.go",
+"""				continue chLoop""", """				break chLoop""", "a duplicated recipient gets one status: the serving goroutine blocks for good")
+
 json.dump(S, open(os.path.join(os.path.dirname(os.path.abspath(__file__)), "bank.json"), "w"), indent=1)
 print(len(S), "seeds")
